@@ -604,6 +604,20 @@ func (fr *Frame) execLoop(li *loopInfo, order []*ssa.BasicBlock, loops map[*ssa.
 		}
 		u.assume(stH.pc, t)
 	}
+	// iterator protocol: "the callback has not yet returned false" is an inferred invariant of every loop
+	var stopGhosts []string
+	for g := range stH.ghost {
+		if strings.HasPrefix(g, "stopped_") {
+			stopGhosts = append(stopGhosts, g)
+		}
+	}
+	sort.Strings(stopGhosts)
+	for _, g := range stopGhosts {
+		if e, ok := stE.ghost[g]; ok {
+			u.oblige(fr, "inv-entry", blockPos(head), fmt.Sprintf("loop %d: inferred: callback has not returned false (%s)", li.ord, g), stE.pc, Not(e), true)
+		}
+		u.assume(stH.pc, Not(stH.ghost[g]))
+	}
 	savedPhi := map[*ssa.Phi]Term{}
 	for phi := range phiEntry {
 		savedPhi[phi] = fr.regs[phi]
@@ -644,6 +658,11 @@ func (fr *Frame) execLoop(li *loopInfo, order []*ssa.BasicBlock, loops map[*ssa.
 				continue
 			}
 			u.oblige(fr, "inv-preserved", blockPos(head), fmt.Sprintf("loop %d: %s", li.ord, c.Text), stB.pc, t, false)
+		}
+		for _, g := range stopGhosts {
+			if e, ok := stB.ghost[g]; ok {
+				u.oblige(fr, "inv-preserved", blockPos(head), fmt.Sprintf("loop %d: inferred: callback has not returned false (%s)", li.ord, g), stB.pc, Not(e), true)
+			}
 		}
 		// locks are balanced per iteration
 		u.oblige(fr, "loop-balance", blockPos(head), fmt.Sprintf("loop %d: locks held at the end of an iteration equal those at its start", li.ord), stB.pc, Eq(stB.held, stH.held), true)
